@@ -81,7 +81,12 @@ func PointAtBearingAndDistance(p orb.Point, bearing, distance float64) orb.Point
 	bearingRadians := deg2rad(bearing)
 
 	distanceRatio := distance / orb.EarthRadius
-	bLat := math.Asin(math.Sin(aLat)*math.Cos(distanceRatio) + math.Cos(aLat)*math.Sin(distanceRatio)*math.Cos(bearingRadians))
+	sinLat := math.Sin(aLat)*math.Cos(distanceRatio) + math.Cos(aLat)*math.Sin(distanceRatio)*math.Cos(bearingRadians)
+
+	// rounding can push sinLat marginally beyond +-1 when the destination is (nearly) a pole
+	sinLat = math.Max(math.Min(sinLat, 1), -1)
+
+	bLat := math.Asin(sinLat)
 	bLon := aLon +
 		math.Atan2(
 			math.Sin(bearingRadians)*math.Sin(distanceRatio)*math.Cos(aLat),
